@@ -95,7 +95,7 @@ func totalCase(idx int, schemaText, instText []byte, reg strfmt.Registry) (enc.M
 					reg = nil
 				}
 				out := ""
-				st, pv := guarded(5*time.Second, func() {
+				st, pv := guarded(30*time.Second, func() {
 					var s spec.Schema
 					_ = json.Unmarshal(schemaText, &s)
 					var data interface{}
